@@ -288,12 +288,16 @@ func (w *Walker) list(p capnp.Ptr, l capnp.List, t ref.Target, depth int, path s
 	} else {
 		w.TotalElems -= n
 	}
-	oob := func(words int) error {
-		if word < 0 || words < 0 || word+words > segWords {
-			return pbt.Fail("api-accepts-out-of-bounds/list", "%s: API accepted a list (kind %d, count %d) whose extent [%d,%d) words is outside segment %d (%d words)", path, lk, count, word, word+words, seg, segWords)
+	// bounds are a matter of bytes: a segment supplied by the caller need not end on a word boundary, and a bit or
+	// byte list that does not use the padding of its last word is inside the segment even when that padding is not
+	segBytes := len(w.D.Segs[seg])
+	oob := func(nbytes int) error {
+		if word < 0 || nbytes < 0 || word*8+nbytes > segBytes {
+			return pbt.Fail("api-accepts-out-of-bounds/list", "%s: API accepted a list (kind %d, count %d) whose extent, bytes [%d,%d), is outside segment %d (%d bytes)", path, lk, count, word*8, word*8+nbytes, seg, segBytes)
 		}
 		return nil
 	}
+	_ = segWords
 	switch lk {
 	case ref.LVoid:
 		if l.Len() != count {
@@ -305,7 +309,7 @@ func (w *Walker) list(p capnp.Ptr, l capnp.List, t ref.Target, depth int, path s
 			}
 		}
 	case ref.LBit:
-		if err := oob((count + 63) / 64); err != nil {
+		if err := oob((count + 7) / 8); err != nil {
 			return err
 		}
 		if l.Len() != count {
@@ -320,7 +324,7 @@ func (w *Walker) list(p capnp.Ptr, l capnp.List, t ref.Target, depth int, path s
 		}
 	case ref.LB1, ref.LB2, ref.LB4, ref.LB8:
 		sz := lk.ElemBytes()
-		if err := oob((count*sz + 7) / 8); err != nil {
+		if err := oob(count * sz); err != nil {
 			return err
 		}
 		if l.Len() != count {
@@ -381,7 +385,7 @@ func (w *Walker) list(p capnp.Ptr, l capnp.List, t ref.Target, depth int, path s
 			}
 		}
 	case ref.LPtr:
-		if err := oob(count); err != nil {
+		if err := oob(count * 8); err != nil {
 			return err
 		}
 		if l.Len() != count {
@@ -398,7 +402,7 @@ func (w *Walker) list(p capnp.Ptr, l capnp.List, t ref.Target, depth int, path s
 			}
 		}
 	case ref.LComposite:
-		if err := oob(count + 1); err != nil {
+		if err := oob((count + 1) * 8); err != nil {
 			return err
 		}
 		tag := binary.LittleEndian.Uint64(w.D.Segs[seg][word*8:])
